@@ -2,6 +2,7 @@
 #include "oracles.h"
 #include <algorithm>
 #include <ares_dns_record.h>
+#include <arpa/inet.h>
 
 using dnsref::Msg;
 
@@ -58,6 +59,37 @@ void profile_cfg_more(const std::string &prof, uint64_t seed, RunCfg &c, Rng &r)
     c.allow_cancel_in_cb = 0;
     c.beh_w = {45, 4, 2, 0, 3, 0, 5, 35, 4, 1, 1, 0, 1, 0, 0};
     c.qcache_max_ttl = 0;
+  } else if (prof == "C13") {
+    c.allow_cancel_in_cb = 0;
+    int f = ARES_FLAG_NOALIASES;
+    if (r.chance(0.7)) f |= ARES_FLAG_EDNS;
+    if (r.chance(0.6)) f |= ARES_FLAG_NOSEARCH;
+    if (r.chance(0.2)) f |= ARES_FLAG_DNS0x20;
+    if (r.chance(0.3)) f |= ARES_FLAG_STAYOPEN;
+    if (r.chance(0.1)) f |= ARES_FLAG_USEVC;
+    c.flags = f;
+    c.ndots = 1; c.set_domains = 1; c.domains.clear();
+    if (!(f & ARES_FLAG_NOSEARCH)) { c.domains.push_back("corp.test"); if (r.chance(0.5)) c.domains.push_back("lan.test"); }
+    static const char *lk[] = {"b", "bf", "fb", "f"};
+    c.lookups = lk[r.below(4)];
+    c.qcache_max_ttl = r.chance(0.7) ? 0 : 300;
+    c.tries = 2; c.timeout_ms = 400; c.maxtimeout_ms = -1; c.rotate = 0; c.udp_max_queries = -1;
+    c.retry_chance = 0; c.retry_delay = 0;
+    if (c.servers.size() > 2) c.servers.resize(2);
+    for (auto &sv : c.servers) sv.cookie_mode = r.chance(0.3) ? CK_GOOD : CK_NONE;
+    c.beh_w = {96, 0, 0, 0, 0, 0, 4, 0, 0, 0, 0, 0, 0, 0, 0};
+    c.zone_w = {70, 10, 12, 8};
+    c.prof.max_addrs = r.chance(0.3) ? 40 : 6; c.prof.max_cname_chain = 3;
+    c.prof.mixed_family_pct = 20; c.prof.foreign_class_pct = 15; c.prof.additional_addr_pct = 25;
+    c.prof.ttl_choices = {1, 5, 30, 77, 300, 3600, 86400};
+    c.knobs["kind_mask"] = (1 << K_GETADDRINFO) | (1 << K_GETHOSTBYNAME) | (1 << K_GETHOSTBYADDR) | (1 << K_GETNAMEINFO);
+    if (r.chance(0.5)) { static const char *sl[] = {"10.0.0.0/8", "10.1.0.0/255.255.0.0 10.0.0.0/8", "10.0.0.0/9 10.128.0.0/9"}; c.sortlist = sl[r.below(3)]; }
+    // hosts file: names served from the file, some dual stack; literal and loopback names
+    c.hosts_file = "127.0.0.1 localhost\n::1 localhost\n198.51.100.10 hosty1.test alias1.test\n198.51.100.11 hosty1.test\n2001:db8:1::10 hosty1.test\n198.51.100.20 hosty2.test\n2001:db8:1::30 hosty3.test\n";
+    c.names.push_back("!hosty1.test"); c.names.push_back("!hosty2.test"); c.names.push_back("!hosty3.test");
+    c.names.push_back("!192.0.2.55"); c.names.push_back("!2001:db8::55"); c.names.push_back("!localhost"); c.names.push_back("!foo.localhost");
+    c.sock_create_cb = 0; c.sock_config_cb = 0;
+    c.min_delay = 200; c.max_delay = 20000;
   } else if (prof == "C12") {
     c.allow_cancel_in_cb = 0;
     c.knobs["token_style"] = 2;
@@ -200,6 +232,15 @@ bool profile_plan_more(const RunCfg &c, Rng &r, std::vector<Step> &plan) {
   if (p == "C03") { gen(c, r, plan, weights({{S_REQ, 40}, {S_ADV, 45}, {S_CHUNK, 10}, {S_STALL, 1}, {S_FAULT, 2}}), 20, 120); for (auto &s : plan) if (s.k == S_FAULT) { s.a = FC_SEND; s.b = 0; s.c = 2 + 4 * (r.chance(0.5) ? 1 : 0) + 16 * (int64_t)r.below(20); } return true; }
   if (p == "C06") { gen(c, r, plan, weights({{S_REQ, 22}, {S_ADV, 50}, {S_STALL, 4}, {S_NETOP, 6}, {S_FAULT, 10}, {S_PARTITION, 3}, {S_SETSRV, 3}, {S_REINIT, 1}, {S_CHUNK, 2}}), 20, 120); return true; }
   if (p == "C07") { gen(c, r, plan, weights({{S_REQ, 25}, {S_ADV, 60}, {S_STALL, 8}, {S_NETOP, 4}, {S_PARTITION, 3}, {S_CANCEL, 1}}), 20, 140); return true; }
+  if (p == "C13") {
+    gen(c, r, plan, weights({{S_REQ, 32}, {S_ADV, 60}, {S_FAULT, 6}, {S_SORTLIST, 2}}), 20, 130);
+    for (auto &s : plan) {
+      if (s.k == S_REQ) s.d = (s.d / R_NREACT) * R_NREACT + R_NONE;
+      if (s.k == S_ADV) { s.a = 0; }
+      if (s.k == S_FAULT) { static const int cls[] = {FC_SOCKET, FC_CONNECT, FC_GETSOCKNAME, FC_FOPEN}; s.a = cls[r.below(4)]; s.c = 0; s.d = 0; }   // source-address discovery for sorting, hosts file open
+    }
+    return true;
+  }
   if (p == "C12") {
     gen(c, r, plan, weights({{S_REQ, 30}, {S_ADV, 70}}), 20, 120);
     for (auto &s : plan) { if (s.k == S_REQ) s.d = (s.d / R_NREACT) * R_NREACT + R_NONE; if (s.k == S_ADV) { s.a = 0; s.b = 0; } }   // a well-behaved loop: outcomes per candidate stay definite
@@ -449,6 +490,152 @@ static void c06_after(Run &run) {
       if (rounds >= 1) run.note("attempt_in_later_round");
     }
   }
+}
+
+// ---------------------------------------------------------------------------------------------
+// C13: address lookups return exactly the addresses the answers contain
+// ---------------------------------------------------------------------------------------------
+static std::string ref_reverse_name(const std::string &addr) {
+  char b[80];
+  std::string o;
+  if (addr.size() == 4) { snprintf(b, sizeof b, "%u.%u.%u.%u.in-addr.arpa", (uint8_t)addr[3], (uint8_t)addr[2], (uint8_t)addr[1], (uint8_t)addr[0]); return b; }
+  static const char *hx = "0123456789abcdef";
+  for (int i = 15; i >= 0; i--) { o += hx[(uint8_t)addr[(size_t)i] & 15]; o += '.'; o += hx[(uint8_t)addr[(size_t)i] >> 4]; o += '.'; }
+  return o + "ip6.arpa";
+}
+static std::string addr_text(const std::string &a) {
+  char b[64] = "?";
+  if (a.size() == 4) inet_ntop(AF_INET, a.data(), b, sizeof b); else if (a.size() == 16) inet_ntop(AF_INET6, a.data(), b, sizeof b);
+  return b;
+}
+static std::string addrs_text(std::vector<std::string> v) { std::sort(v.begin(), v.end()); std::string o; for (auto &a : v) o += (o.empty() ? "" : " ") + addr_text(a); return o; }
+
+static void c13_done(Run &run, Req &r) {
+  if (run.cfg.profile != "C13") return;
+  if (r.from_callback) return;
+  // ----- reverse lookups -----
+  if (r.kind == K_GETHOSTBYADDR || r.kind == K_GETNAMEINFO) {
+    std::string want = ref_reverse_name(r.addr_bytes);
+    std::vector<const Tx *> mine;
+    for (int i = r.tx_at_submit; i < (int)W.txs.size(); i++) { const Tx &t = W.txs[(size_t)i]; if (!t.msg.qd.empty() && t.msg.qd[0].type == 12 && t.qname_lc.size() > 5 && t.qname_lc.find(".arpa") != std::string::npos && t.t >= r.t_submit) { if (t.qname_lc == want) mine.push_back(&t); } }
+    // any PTR question that is not the reference name of some outstanding reverse request is wrong
+    for (int i = r.tx_at_submit; i < (int)W.txs.size(); i++) {
+      const Tx &t = W.txs[(size_t)i];
+      if (t.msg.qd.empty() || t.msg.qd[0].type != 12 || t.qname_lc.find(".arpa") == std::string::npos) continue;
+      bool known = false;
+      for (auto &q : run.reqs) if (!q.addr_bytes.empty() && ref_reverse_name(q.addr_bytes) == t.qname_lc) known = true;
+      if (!known) { run.violate("C13", "reverse_name", "reverse lookup asked for '" + t.qname_lc + "' which is not the reverse-map name of any requested address (e.g. " + want + " for " + addr_text(r.addr_bytes) + ")"); return; }
+    }
+    run.note("reverse_checked");
+    if (r.status == ARES_SUCCESS && r.got.has && r.kind == K_GETHOSTBYADDR) {
+      // names returned = PTR targets of the accepted answer
+      int rid = resp_of_markers(r.markers);
+      if (rid >= 0 && !W.resps[(size_t)rid].tainted) {
+        const Resp &rs = W.resps[(size_t)rid];
+        std::vector<std::string> exp, got;
+        for (auto &rr : rs.msg.an) if (rr.type == dnsref::T_PTR && rr.klass == 1) exp.push_back(dnsref::name_lower(dnsref::name_to_text(rr.target)));
+        got.push_back(dnsref::name_lower(r.got.canon));
+        for (auto &a : r.got.aliases) got.push_back(dnsref::name_lower(a));
+        std::sort(exp.begin(), exp.end()); std::sort(got.begin(), got.end());
+        exp.erase(std::unique(exp.begin(), exp.end()), exp.end()); got.erase(std::unique(got.begin(), got.end()), got.end());   // h_name repeats one of the aliases
+        if (exp != got) { std::string e, g; for (auto &x : exp) e += x + " "; for (auto &x : got) g += x + " "; run.violate("C13", "reverse_names_differ", "PTR answer names [" + e + "] but gethostbyaddr returned [" + g + "]"); }
+      }
+    }
+    return;
+  }
+  if (r.kind != K_GETADDRINFO && r.kind != K_GETHOSTBYNAME) return;
+  if (r.status != ARES_SUCCESS) return;
+  int fam = r.family;
+  std::vector<std::string> got;
+  for (auto &a : r.got.addrs) got.push_back(a.first);
+  std::string ctx = std::string(req_kind_name[r.kind]) + " " + r.name + " family " + (fam == AF_INET ? "INET" : fam == AF_INET6 ? "INET6" : "UNSPEC");
+  // family restriction (an IPv4 literal looked up with AF_INET6 is long-standing documented-by-code legacy behaviour of the
+  // fake-address shortcut and is not judged; see DESIGN.md, C13)
+  bool literal = r.name == "192.0.2.55" || r.name == "2001:db8::55";
+  if (!literal) for (auto &a : got) if ((fam == AF_INET && a.size() != 4) || (fam == AF_INET6 && a.size() != 16)) { run.violate("C13", "wrong_family_returned", ctx + " returned " + addr_text(a)); return; }
+  // ports
+  for (int p : r.got.ports) if (p != r.port) { run.violate("C13", "wrong_port", ctx + " port " + std::to_string(r.port) + " returned port " + std::to_string(p)); return; }
+  std::set<std::string> uniq(got.begin(), got.end());
+  // literals / hosts file / loopback
+  std::string base = r.name;
+  if (base == "192.0.2.55" || base == "2001:db8::55") {
+    Addr a = addr_parse(base, 0);
+    std::string ab((const char *)a.a, a.family == AF_INET ? 4 : 16);
+    if (got.size() != 1 || got[0] != ab) run.violate("C13", "literal_result", ctx + " returned [" + addrs_text(got) + "]");
+    run.note("literal_checked");
+    return;
+  }
+  if (base == "localhost" || base == "foo.localhost") {
+    for (auto &a : got) { bool lo = (a.size() == 4 && (uint8_t)a[0] == 127) || (a.size() == 16 && a == std::string("\0\0\0\0\0\0\0\0\0\0\0\0\0\0\0\1", 16)); if (!lo) { run.violate("C13", "loopback_result", ctx + " returned non-loopback " + addr_text(a)); return; } }
+    run.note("loopback_checked");
+    return;
+  }
+  if (base.compare(0, 5, "hosty") == 0) {
+    bool file_first = run.cfg.lookups == "f" || run.cfg.lookups == "fb";
+    bool from_dns = !r.markers.empty();
+    if (!from_dns) {
+      std::vector<std::string> exp;
+      auto add = [&](const char *ip) { Addr a = addr_parse(ip, 0); if (fam == AF_UNSPEC || fam == a.family) exp.push_back(std::string((const char *)a.a, a.family == AF_INET ? 4 : 16)); };
+      if (base == "hosty1.test") { add("198.51.100.10"); add("198.51.100.11"); add("2001:db8:1::10"); }
+      if (base == "hosty2.test") add("198.51.100.20");
+      if (base == "hosty3.test") add("2001:db8:1::30");
+      if (r.kind == K_GETHOSTBYNAME && fam == AF_UNSPEC && !got.empty()) { size_t sz = got[0].size(); std::vector<std::string> e2; for (auto &x : exp) if (x.size() == sz) e2.push_back(x); exp = e2; }   // a hostent carries one family
+      std::vector<std::string> g = got; std::sort(g.begin(), g.end()); std::sort(exp.begin(), exp.end());
+      run.note("hosts_file_checked");
+      if (g != exp) run.violate("C13", "hosts_file_result", ctx + " (lookups " + run.cfg.lookups + ") hosts file lists [" + addrs_text(exp) + "], returned [" + addrs_text(got) + "]");
+      return;
+    }
+    (void)file_first;
+    run.note("hosts_name_answered_from_dns");
+    return;   // names without a token cannot be attributed to one request when several are in flight
+  }
+  // ----- answered from DNS: the contributing responses are named by the markers -----
+  std::set<int> rids;
+  for (auto &a : got) { int m = marker_of_addr(a); if (m < 0) { run.violate("C13", "invented_address", ctx + " returned " + addr_text(a) + " which no answer carried"); return; } auto it = W.marker_resp.find((uint32_t)m); if (it == W.marker_resp.end()) { run.violate("C13", "invented_address", ctx + " returned " + addr_text(a) + " which no answer carried"); return; } rids.insert(it->second); }
+  if (uniq.size() != got.size()) { run.violate("C13", "duplicated_address", ctx + " returned an address twice: [" + addrs_text(got) + "]"); return; }
+  if (rids.empty()) return;
+  // all contributing responses must answer the same (winning) candidate name
+  std::string win;
+  for (int rid : rids) { const Resp &rs = W.resps[(size_t)rid]; if (rs.tainted || rs.tx < 0) return; const std::string &qn = W.txs[(size_t)rs.tx].qname_lc; if (win.empty()) win = qn; else if (win != qn) { run.violate("C13", "mixed_candidates", ctx + " mixes addresses answered for '" + win + "' and '" + qn + "'"); return; } }
+  // every accepted answer for the winning candidate and a requested family contributes all of its address records
+  std::vector<std::string> exp;
+  std::map<std::string, uint32_t> exp_ttl;
+  bool cached = false;
+  for (auto &rs : W.resps) {
+    if (rs.tx < 0 || rs.forged || rs.defect || rs.tainted) continue;
+    const Tx &t = W.txs[(size_t)rs.tx];
+    bool untokened = token_of_name(dnsref::name_from_text(r.name)) < 0;
+    if ((untokened ? (t.t < r.t_submit || t.token >= 0) : t.token != r.token) || t.qname_lc != win || t.msg.qd.empty()) continue;
+    int qt = t.msg.qd[0].type;
+    if (qt != 1 && qt != 28) continue;
+    if (rs.read_times.empty() || rs.rcode != 0 || rs.tc) continue;
+    if (!rids.count(rs.id)) {
+      // an answer for the winning name that contributed nothing: fine only if it carries no address of a requested family
+      bool has = false;
+      for (auto &rr : rs.msg.an) if (rr.klass == 1 && ((rr.type == 1 && fam != AF_INET6) || (rr.type == 28 && fam != AF_INET))) has = true;
+      if (has && r.kind == K_GETADDRINFO) {
+        // duplicates of an accepted datagram are ignored by the library; only flag the first read copy
+        bool dup_of_contributing = false;
+        for (int rid : rids) if (W.resps[(size_t)rid].tx == rs.tx) dup_of_contributing = true;
+        if (!dup_of_contributing) { run.violate("C13", "answer_dropped", ctx + ": the accepted answer to " + win + " type " + std::to_string(qt) + " carried addresses but none of them was returned"); return; }
+      }
+      continue;
+    }
+    for (auto &rr : rs.msg.an) {
+      if (rr.klass != 1) continue;
+      if (rr.type == 1 && fam != AF_INET6) { exp.push_back(rr.addr); exp_ttl[rr.addr] = rr.ttl; }
+      if (rr.type == 28 && fam != AF_INET) { exp.push_back(rr.addr); exp_ttl[rr.addr] = rr.ttl; }
+    }
+  }
+  if (r.in_call && r.tx_at_done == r.tx_at_submit) cached = true;
+  if (r.kind == K_GETHOSTBYNAME && !got.empty()) { size_t sz = got[0].size(); std::vector<std::string> e2; for (auto &x : exp) if (x.size() == sz) e2.push_back(x); exp = e2; }
+  std::vector<std::string> g = got; std::sort(g.begin(), g.end()); std::sort(exp.begin(), exp.end());
+  run.note("address_set_checked");
+  if (got.size() > 8) run.note("address_set_large");
+  if (rids.size() > 1) run.note("address_set_two_answers");
+  if (g != exp && !cached) { run.violate("C13", "address_multiset_differs", ctx + ": accepted answers for " + win + " carry [" + addrs_text(exp) + "], returned [" + addrs_text(got) + "]"); return; }
+  if (r.kind == K_GETADDRINFO && !cached)
+    for (auto &a : r.got.addrs) { auto it = exp_ttl.find(a.first); if (it != exp_ttl.end() && (int64_t)it->second != (int64_t)a.second) { run.violate("C13", "wrong_ttl", ctx + ": " + addr_text(a.first) + " has record TTL " + std::to_string(it->second) + " but ai_ttl " + std::to_string(a.second)); return; } }
 }
 
 // ---------------------------------------------------------------------------------------------
@@ -884,7 +1071,7 @@ void profile_attach_more(Run &run) {
   run.tx_obs.push_back(c03_tx);
   run.tx_obs.push_back(c06_tx);
   auto prev_done = run.on_done;
-  run.on_done = [prev_done](Run &r, Req &q) { if (prev_done) prev_done(r, q); c03_done(r, q); c08_done(r, q); c05_done(r, q); c12_done(r, q); };
+  run.on_done = [prev_done](Run &r, Req &q) { if (prev_done) prev_done(r, q); c03_done(r, q); c08_done(r, q); c05_done(r, q); c12_done(r, q); c13_done(r, q); };
   run.world_ready.push_back([](Run &r) {
     Run *rp = &r;
     W.on_read = [rp](Resp &rs, VFd &sock) { c05_arrival(*rp, rs, sock); };
@@ -935,6 +1122,7 @@ bool profile_nontrivial(const Run &run) {
   if (p == "C08") return base && get("cache_hit") > 0;
   if (p == "C05") return base && get("forged_packet") > 0;
   if (p == "C12") return base && get("search_walk_multi_candidate") > 0;
+  if (p == "C13") return base && get("address_set_checked") > 0;
   if (p == "C20") return base && get("differential_compared") > 0 && (W.stat.count("send_short") || W.stat.count("recv_short") || W.stat.count("send_eagain_window") || W.stat.count("recv_eagain_injected") || get("zero_length_datagram") > 0 || !W.fault_fired.empty());
   if (p == "C01") return base && (get("req_from_callback") + get("cancel_in_callback") + get("cancel_with_outstanding") > 0 || !W.fault_fired.empty());
   return base;
@@ -944,6 +1132,7 @@ const char *profile_rule(const std::string &prof) {
   if (prof == "C03") return "runs are seeded plans (requests by name / setter-built multi-record messages / legacy builder, transport chunking so frames queue behind unsent bytes); non-trivial = at least one setter-built frame or one delivered answer was compared with the reference codec; distinct = distinct trace-shape hash";
   if (prof == "C06") return "runs are seeded plans over per-attempt server outcomes, option extremes (tries up to 100, timeouts 1 ms..INT_MAX, maxtimeout below the floor), list edits; non-trivial = at least one attempt's wait was checked against the envelope and traffic was processed; distinct = distinct trace-shape hash";
   if (prof == "C07") return "runs are seeded plans with silent/slow servers and sleep-exactly/overshoot/stall steps; non-trivial = the hint was compared with a real deadline and at least one loop turn ran with an expired deadline; distinct = distinct trace-shape hash";
+  if (prof == "C13") return "runs are seeded sets of getaddrinfo/gethostbyname/gethostbyaddr/getnameinfo requests (families, hint flags, ports, sortlists, lookup orders, hosts-file names, literals, localhost) against answers with 1..40 unique marker addresses, CNAME chains, other-family and foreign-class records in the answer section and address records in the additional section, with faults on the source-address discovery used for sorting; non-trivial = at least one DNS-answered address set was compared as a multiset with the accepted answers; distinct = distinct trace-shape hash";
   if (prof == "C12") return "runs are seeded sets of search/getaddrinfo/gethostbyname requests over name shapes (0..4 dots, trailing dot, long labels, names that stop fitting once a domain is appended, host aliases) x ndots x domain lists (incl. root) x flags, with a per-candidate outcome (data, NODATA, NXDOMAIN, SERVFAIL, REFUSED, timeout) fixed by keyed hash; the question names seen at the virtual server and the final status are compared with an independent resolv.conf(5) reference; non-trivial = at least one request whose reference candidate list has more than one entry was checked; distinct = distinct trace-shape hash";
   if (prof == "C05") return "runs are seeded histories of genuine traffic (loss, delay, duplicates, late replies, error rcodes, TC) with an off-path adversary injecting datagrams that differ from the would-be-valid reply in one respect (id, socket, source address, name, type, class, question count, letter case, cookie) at chosen instants of a query's life; every delivered datum carries a unique marker naming its packet; non-trivial = at least one forged packet was injected while traffic was processed; distinct = distinct trace-shape hash";
   if (prof == "C08") return "runs are seeded sequences of requests over a small name set (case / trailing-dot / flag / type variants, every API), responses with TTL mixes and negative answers, virtual-time advances around whole-second expiry instants, server-list changes and reinit; non-trivial = at least one request was answered without any transmission (a cache hit judged by the reference model); distinct = distinct trace-shape hash";
